@@ -352,6 +352,78 @@ def gen_c09(read, num):
     return lines, broken
 
 
+def gen_c13(read, num):
+    """C13 part: which zero-copy parsers of decoder.rs take the error context, which `PathSegment`s each of them pushes,
+    and every assignment to `ctx.byte_offset` — the shape the context model (Impl/DecodeCtx.lean) transcribes."""
+    broken = []
+    lines = []
+    dec = read("crates/erltf/src/decoder.rs")
+    tags_src = read("crates/erltf/src/tags.rs")
+    ctx_tags, plain_tags, pushes, assigns = [], [], [], []
+    if dec is None or tags_src is None:
+        broken.append("decoder.rs or tags.rs missing")
+    else:
+        tagv = {n: num(v) for n, v in re.findall(r"pub\s+const\s+([A-Z0-9_]+)\s*:\s*u8\s*=\s*([0-9_]+)\s*;", tags_src)}
+        body = _fn_body(dec, r"fn\s+parse_term_from_tag_borrowed\s*<")
+        if body is None:
+            broken.append("fn parse_term_from_tag_borrowed body not found in decoder.rs")
+        else:
+            arms = re.findall(r"([A-Z][A-Z0-9_]+)\s*=>\s*(?:([a-z_0-9]+)\s*\(([^)]*)\)|Ok\(\(input,\s*BorrowedTerm::Nil\)\))", body)
+            if not arms:
+                broken.append("no arms found in parse_term_from_tag_borrowed")
+            for name, fn, args in arms:
+                if name not in tagv:
+                    broken.append(f"tag constant {name} of parse_term_from_tag_borrowed not found in tags.rs")
+                    continue
+                if fn and re.search(r"\bctx\b", args):
+                    ctx_tags.append(tagv[name])
+                else:
+                    plain_tags.append(tagv[name])
+        text = re.sub(r"//[^\n]*", "", dec)
+        for fn in re.findall(r"fn\s+(parse_[a-z_0-9]+_borrowed)\s*<", text):
+            b = _fn_body(text, r"fn\s+" + fn + r"\s*<")
+            if b is None:
+                continue
+            segs = re.findall(r"ctx\.push\(\s*PathSegment::([A-Za-z]+)", b)
+            if segs:
+                if len(re.findall(r"ctx\.pop\(\)", b)) != len(segs):
+                    broken.append(f"{fn}: ctx.push / ctx.pop do not pair up")
+                pushes.append((fn, segs))
+        for fn in ("parse_versioned_term_borrowed", "parse_term_borrowed", "decode_borrowed"):
+            b = _fn_body(text, r"fn\s+" + fn + r"\s*[<(]")
+            if b is None:
+                broken.append(f"fn {fn} not found in decoder.rs")
+                continue
+            for rhs in re.findall(r"ctx\.byte_offset\s*=\s*([^;]+);", b):
+                assigns.append(fn + ":" + re.sub(r"\s+", "", rhs))
+        total = len(re.findall(r"\.byte_offset\s*=[^=]", text))
+        if total != len(assigns):
+            broken.append(f"decoder.rs assigns byte_offset in {total} places, {len(assigns)} of them in the three known functions")
+        # the depth counter: incremented and decremented around the dispatch, nowhere else
+        pb = _fn_body(text, r"fn\s+parse_term_borrowed\s*<") or ""
+        flat = re.sub(r"\s+", "", pb)
+        if "ctx.depth+=1;letresult=parse_term_from_tag_borrowed(input,tag,original_len,ctx);ctx.depth-=1;result" not in flat:
+            broken.append("parse_term_borrowed: `ctx.depth += 1; let result = …; ctx.depth -= 1; result` not found")
+        if len(re.findall(r"ctx\.depth\s*[-+]=", text)) != 2:
+            broken.append("ctx.depth is changed outside parse_term_borrowed")
+        if "ifctx.depth>MAX_NESTING_DEPTH{" not in flat:
+            broken.append("parse_term_borrowed: test `if ctx.depth > MAX_NESTING_DEPTH` not found")
+
+    def strs(xs):
+        return "[" + ", ".join('"' + x + '"' for x in xs) + "]"
+
+    lines.append("/-- tags whose arm in `parse_term_from_tag_borrowed` passes `ctx` on -/")
+    lines.append(f"def C13_CTX_TAGS : List Nat := {ctx_tags}")
+    lines.append("/-- tags whose arm does not -/")
+    lines.append(f"def C13_PLAIN_TAGS : List Nat := {plain_tags}")
+    lines.append("/-- `ctx.push(PathSegment::…)` per zero-copy parser, in textual order (each with its `ctx.pop()`) -/")
+    lines.append("def C13_PUSHES : List (String × List String) := [" + ", ".join('("' + f + '", ' + strs(sg) + ")" for f, sg in pushes) + "]")
+    lines.append("/-- every assignment to `ctx.byte_offset` in decoder.rs: function and right-hand side -/")
+    lines.append(f"def C13_OFFSET_ASSIGNMENTS : List String := {strs(assigns)}")
+    lines.append("")
+    return lines, broken
+
+
 def _impl_body(src, header_re):
     """Brace-balanced body of the first `impl … {` whose header matches header_re."""
     return _fn_body(src, header_re)
@@ -612,7 +684,7 @@ def gen_c15(read, num):
 def run(read, emit, num):
     body = "namespace Edp.Gen\n\n"
     broken = []
-    for part in (gen_c16, gen_c09, gen_c04, gen_c15):
+    for part in (gen_c16, gen_c09, gen_c04, gen_c15, gen_c13):
         ls, br = part(read, num)
         body += "\n".join(ls) + "\n"
         broken += br
